@@ -88,5 +88,6 @@ var engineKinds = map[string]string{
 	"utf8":      "real RepairUTF8Codec and blob-repair path on wire bytes generated from the legacy gogo schema by reflection, vs the standard codec on a sanitised twin",
 	"tlsmatrix": "real TLS configurations (server/client, raw and inside the real mux receiver/establisher) in real handshakes against an in-process PKI",
 	"muxsim":    "real mux provider / multi-mux manager / managed sessions over net.Pipe with a scripted connection provider, virtual time",
+	"gossip":    "real shard managers + memberlist delegates with the harness as the gossip network (delivery permutations, duplicates, merges, leaves); routing-result probes",
 	"ringmodel": "real ring buffer vs reference model, exhaustive-bounded + random operation sequences",
 }
